@@ -386,8 +386,8 @@ theorem sprint_keyPath (root : Bool) (ss : List Seg) : sprintPath 0 (keyPath roo
       rw [ih]
       cases sg with
       | key k m => cases m <;> simp [Seg.part, Seg.text, sprintPart, restK, tokB]
-      | call n => simp [Seg.part, Seg.text, sprintPart, restK, joinB]
-      | callS n a => simp [Seg.part, Seg.text, sprintPart, restK, joinB, Param.toBytes]
+      | call n => simp [Seg.part, Seg.text, sprintPart, restK, sprintParams]
+      | callS n a => simp [Seg.part, Seg.text, sprintPart, restK, sprintParams, sprintParam]
   unfold keyPath sprintPath
   rw [hparts]
   cases root <;> simp [tabs, str_dollar, str_at, rootB]
